@@ -46,8 +46,6 @@ pub proof fn lemma_row_step<B>(o: Seq<B>, c: Seq<B>, n: Seq<B>, h: B, was_target
 }
 
 // ------------------------------------------------------------------ row views of the three index shapes
-pub open spec fn rm_row<A, B>(m: RelationMap<A, B>, x: int) -> Seq<B> { row_or_empty(m.data@, x) }
-pub open spec fn bt_row<A: Handle, B: Handle>(m: RelationBTreeMap<A, B>, x: A) -> Seq<B> { brow(m.data@, x) }
 
 /// the annotation `h` is listed at most once in every row of the index (C01: "none twice")
 pub open spec fn rm_once<A, B>(m: RelationMap<A, B>, h: B) -> bool { forall|x: int| at_most_once(#[trigger] rm_row(m, x), h) }
@@ -84,8 +82,8 @@ def build():
     for h in ('AnnotationHandle', 'TextResourceHandle', 'AnnotationDataSetHandle', 'AnnotationDataHandle', 'DataKeyHandle', 'TextSelectionHandle'):
         common.handle_impl(u, h, P)
     u.trusted_text(u_map.VX_POSITION, 'external_body vx_position: std Iterator::position semantics + structural == on handles (R-outline)')
-    u_map.emit_relationmap(u, P, with_canary=False)
-    u_map.emit_other_maps(u, P)
+    u_map.emit_relationmap(u, P, with_canary=False, pushed=True)
+    u_map.emit_other_maps(u, P, pushed=True)
     u.spec(SPEC, 'contracts/u_cascade.py:SPEC')
     MAPS = ['dataset_data_annotation_map', 'textrelationmap', 'resource_annotation_metamap', 'dataset_annotation_metamap',
             'annotation_annotation_map', 'key_annotation_metamap', 'data_annotation_metamap']
